@@ -52,6 +52,14 @@ class Gen:
         if c == 8:
             self.made += 1
             return ["list", []]
+        if c == 9 and self.r.random() < 0.5:
+            self.made += 1
+            return ["estimator", self.r.choice(["StandardScaler", "MinMaxScaler", "PCA"]), self.r.randint(0, 5), True]
+        if c == 10 and self.r.random() < 0.5:
+            if self.r.random() < 0.5:
+                return ["dtype", self.r.choice(DTYPES)]
+            self.made += 1
+            return ["partial", "np.add", [["int", 1]], []]
         return self.scalar()
 
     def keys(self, n):
@@ -257,6 +265,8 @@ def oracle(rec):
     if rec.get("load") != "ok":
         out.append(("load-fails", {}, f"the archive of a supported DAG does not load: {rec.get('load')}"))
         return out
+    if rec.get("redump"):
+        out.append(("dump-fails", {"redump": True}, f"the loaded value cannot be dumped again: {rec['redump']}"))
     if not rec["same"]:
         out.append(("content-differs", {}, f"loaded value differs from the original: {rec.get('fp0', '')[:300]} vs {rec.get('fp2', '')[:300]}"))
     if not rec["part_same"]:
@@ -389,6 +399,8 @@ def run(R, only=None):
                          "C06_unpinned_aliases: without pinning two lists of the caller load as one object (5 objects)",
                          "C06_array_once: heap_ok h (no array temporaries); C06_array_once_general covers temporaries"]
     R.notes["not_modelled"] = ["cyclic graphs (the dump does not terminate: RecursionError)", "CPython's real allocator", "content of payloads (C04/C05)"]
+    allk = ["PList", "PTuple", "PDict", "PSet", "PDefaultDict", "PBytearray", "PArray", "PSparse", "PObjArray", "PMasked", "PObject", "PRng", "POther"]
+    R.notes["uncovered"] = [k for k in allk if "kind:" + k not in R.distribution]
     for c, r in list(zip(cases, recs))[:2]:
         R.sample({"spec": c["spec"], "heap": r.get("heap"), "classes_original": r.get("seq0"), "classes_loaded": r.get("seq2"),
                   "members": r.get("members"), "temporaries": r.get("n_tmp")})
